@@ -10,7 +10,7 @@ Definition c_det0 : fcfg := {| f_det := true; f_mac := 0; f_rcp := 0 |}.
 
 (* FULL STATEMENT (secrecy, repaired code).  For every formatter configuration (deterministic or random ids, any MAC key, any
    recipient key), every history of Put / Get / GetTags / GetBulk / Query (name, name:value, && strings) / Delete /
-   Query with page-size and sort options / Batch / Flush / Close+Open / SetStoreConfig / GetStoreConfig of any length, and an attacker who sees EVERY argument
+   Query with any list of sort / page-size / initial-page options / Batch / Flush / Close+Open / SetStoreConfig / GetStoreConfig of any length, and an attacker who sees EVERY argument
    of EVERY call on the underlying provider and additionally owns any MAC keys and private keys other than the
    configured ones: no application key, value, tag name or tag value is derivable — where derivation may undo every
    encoding (base58, base64 of any flavour, hex), take structures apart, decrypt with any key it can derive, and
@@ -83,7 +83,7 @@ Print Assumptions ciphertexts_differ.
    tag name of a sort option reached the provider in plaintext (confirmed on the real code; repaired by the fix:
    commit 73249c6 in /repo; witness corpus/C12/sort-option-tag-name.json, replayed on every run). *)
 Theorem no_plaintext_leak_asis_refuted :
-  let ops := [XS (Put 1 1 [(1, 1); (2, 2)]); XQuerySort [(1, 1)] 2] in
+  let ops := [XS (Put 1 1 [(1, 1); (2, 2)]); XQueryOpts [(1, 1)] [QPage 10; QSort 1; QSort 2]] in
   derivable (log_terms (xlog AsIs c_det0 ops)) (App CName 2) /\
   ~ derivable (log_terms (xlog Fixed c_det0 ops)) (App CName 2).
 Proof.
@@ -96,7 +96,7 @@ Print Assumptions no_plaintext_leak_asis_refuted.
 (* ---------- non-vacuity ---------- *)
 Definition demo : list xop :=
   [XSetCfg [1; 2]; XS (Put 1 1 [(1, 1)]); XS (Put 1 1 [(1, 1)]); XS (Query [(1, 1)]);
-   XS (Batch [(1, 0, []); (1, 2, [(2, 0)]); (2, 1, [])]); XS (Delete 2); XGetCfg; XQuerySort [(1, 0)] 2].
+   XS (Batch [(1, 0, []); (1, 2, [(2, 0)]); (2, 1, [])]); XS (Delete 2); XGetCfg; XQueryOpts [(1, 0)] [QSort 1; QPage 5; QInit 0; QSort 2]].
 Definition c_rand : fcfg := {| f_det := false; f_mac := 0; f_rcp := 0 |}.
 Definition c_det : fcfg := {| f_det := true; f_mac := 0; f_rcp := 0 |}.
 
